@@ -229,13 +229,13 @@ def body():
         # (A) design: safety exhaustively for the code as it is and for the repaired rule; liveness for all four rules;
         #     behaviour export.  The TLC runs are independent: run them side by side.
         with ThreadPoolExecutor(max_workers=4) as ex:
-            f_code = ex.submit(V.model_check, "Oracle.tla", "Oracle%s.cfg" % sfx, sc, 4, 1500, NOTE)
-            f_fixed = ex.submit(V.model_check, "Oracle.tla", "OracleFixed%s.cfg" % sfx, sc, 4, 1500, NOTE)
+            f_code = ex.submit(V.model_check, "Oracle.tla", "Oracle%s.cfg" % sfx, sc, 6, 1500, NOTE)
+            f_fixed = ex.submit(V.model_check, "Oracle.tla", "OracleFixed%s.cfg" % sfx, sc, 6, 1500, NOTE)
             shapes = ["treadmill", "bounded"] if thorough else ["treadmill"]
-            f_live = [ex.submit(live_run, sh, r, sfx, sc, 4) for sh in shapes for r in ("code", "naive", "proposed", "fixed")]
+            f_live = [ex.submit(live_run, sh, r, sfx, sc, 3) for sh in shapes for r in ("code", "naive", "proposed", "fixed")]
             f_gen = []
             if rb is None:
-                f_gen = [ex.submit(V.export_cases, "Oracle.tla", c, sc, "CASE", 4, 1500, NOTE)
+                f_gen = [ex.submit(V.export_cases, "Oracle.tla", c, sc, "CASE", 3, 1500, NOTE)
                          for c in ("OracleGen%s.cfg" % sfx, "OracleGenFixed%s.cfg" % sfx)]
             mc_code, mc_fixed = f_code.result(), f_fixed.result()
             live = [f.result() for f in f_live]
